@@ -1,0 +1,15 @@
+//go:build verif
+
+package types
+
+// VerifYield is a scheduling gate used only by the /verif conformance harness
+// (build tag "verif"). It is called at named points of relay handling so that a test
+// can force a specific interleaving of concurrent relays. nil = no-op.
+var VerifYield func(point string)
+
+// VerifYieldPoint calls the installed gate, if any.
+func VerifYieldPoint(point string) {
+	if f := VerifYield; f != nil {
+		f(point)
+	}
+}
